@@ -472,15 +472,52 @@ func (pr *progRender) render() string {
 	// Render: ctx first (argument 0), then options in listing order.
 	ctxE := pr.wrap("ctx")
 	var rendered []string
-	for _, idx := range permFor(s.Order, len(opts), 0) {
-		rendered = append(rendered, opts[idx]())
+	for i, idx := range permFor(s.Order, len(opts), 0) {
+		o := opts[idx]()
+		if s.Shadow {
+			o = reEnv.ReplaceAllString(o, shadowNames[i%len(shadowNames)])
+		}
+		if s.Paren {
+			o = "(" + o + ")"
+		}
+		rendered = append(rendered, o)
+	}
+	if s.Shadow {
+		ctxE = reEnv.ReplaceAllString(ctxE, shadowNames[0])
+		for i, p := range pr.pre {
+			pr.pre[i] = reEnv.ReplaceAllString(p, shadowNames[(i+3)%len(shadowNames)])
+		}
 	}
 	s.NArgs = pr.argK
 
 	var x w
 	x.f("// %s runs one generated %s.", s.Name, s.Kind)
-	x.f("func %s(env *rt.Env, ctx %s.Context) (err error) {", s.Name, n.ctx)
+	switch s.Encl {
+	case "generic":
+		x.f("func %s(env *rt.Env, ctx %s.Context) error {", s.Name, n.ctx)
+		x.f("\treturn generic_%s(env, ctx, 7)", s.Name)
+		x.f("}")
+		x.f("")
+		x.f("func generic_%s[X any](env *rt.Env, ctx %s.Context, xv X) (err error) {", s.Name, n.ctx)
+	default:
+		x.f("func %s(env *rt.Env, ctx %s.Context) (err error) {", s.Name, n.ctx)
+	}
 	x.ind++
+	if s.Encl == "closure" {
+		x.f("return func() (err error) {")
+		x.ind++
+	}
+	if s.Shadow {
+		for _, nm := range shadowNames {
+			x.f("%s := env", nm)
+			x.f("_ = %s", nm)
+		}
+	}
+	if s.Extra >= 1 {
+		x.f("if e := %s.Parallel(ctx, %s.Task(func() {})); e != nil {", n.cff, n.cff)
+		x.f("\treturn e")
+		x.f("}")
+	}
 	if pr.usesHolder() {
 		x.f("hold := &holder_%s{env: env}", s.Name)
 		pr.decls = append(pr.decls, fmt.Sprintf("type holder_%s struct{ env *rt.Env }\n", s.Name))
@@ -499,11 +536,25 @@ func (pr *progRender) render() string {
 	for _, r := range rendered {
 		x.f("\t%s,", r)
 	}
+	if s.Encl == "generic" && s.Kind == "flow" {
+		// the type parameter takes part in the flow
+		x.f("\t%s.Params(xv),", n.cff)
+		x.f("\t%s.Task(func(x X) { _ = x }, %s.Invoke(true)),", n.cff, n.cff)
+	}
 	x.f(")")
 	for _, r := range resultReads {
 		x.f("%s", r)
 	}
+	if s.Extra >= 2 {
+		x.f("if e := %s.Flow(ctx, %s.Task(func() {}, %s.Invoke(true))); e != nil && err == nil {", n.cff, n.cff, n.cff)
+		x.f("\treturn e")
+		x.f("}")
+	}
 	x.f("return err")
+	if s.Encl == "closure" {
+		x.ind--
+		x.f("}()")
+	}
 	x.ind--
 	x.f("}")
 	return x.sb.String()
@@ -528,6 +579,14 @@ func permFor(order []int, n, salt int) []int {
 	}
 	return out
 }
+
+// shadowNames are identifiers the generated code introduces itself; in
+// shadow mode the enclosing function declares locals with these names and
+// uses them inside the directive's argument expressions.
+var shadowNames = []string{"sched", "emitter", "tasks", "task0", "v1", "flowInfo", "startTime", "schedInfo", "val", "idx", "key",
+	"flowEmitter", "parallelEmitter", "taskEmitter", "pred1", "p0", "recovered", "schedEmitter", "directiveInfo", "parallelInfo", "sliceTask0Slice", "mapTask0Jobs"}
+
+var reEnv = regexp.MustCompile(`\benv\b`)
 
 var (
 	reExt  = regexp.MustCompile(`\bext\.`)
